@@ -35,10 +35,11 @@ Local Open Scope Qc_scope.
 (* round_dp_with_strategy(2, MidpointAwayFromZero), in cents *)
 Definition round_cents (q : Qc) : Z := rha (Qnum (this q) * 100) (Qden (this q)).
 
-(* the rounded Decimal: the sign flag is kept by the rounding (a value in
-   (-0.005, 0) becomes a negative zero), the magnitude is round_cents *)
+(* the rounded Decimal: magnitude |round_cents|, scale 2; the result is built
+   by Decimal::from_parts, which clears the sign of a zero magnitude: a value
+   in (-0.005, 0) is printed "0.00", not "-0.00" *)
 Definition cents_dec (q : Qc) : CsvFields.dec :=
-  mk_dec (Qcltb q 0) (Z.to_N (Z.abs (round_cents q))) 2.
+  mk_dec (round_cents q <? 0)%Z (Z.to_N (Z.abs (round_cents q))) 2.
 
 (* dollar_precision_str: format!("{:.2}", rounded) *)
 Definition dollar2_text (q : Qc) : bytes := fmt_prec 2 (cents_dec q).
